@@ -26,6 +26,8 @@ func init() {
 			"(R07.3) both call entries, under the flag, test ctx.Done() first, start the watcher and defer its cancel; the watcher maps Canceled/DeadlineExceeded to their exit codes. (R07.4) the Go side of the check polls the module the watcher closes (same access path from the call engine; a genuine interpreter defect – only the immediate caller's module was polled – was found and fixed); (R07.5) on the context-done path the closed flag is published before anything that takes the store lock. NOT decided: promptness (time), scheduling of the watcher goroutine, correctness of the emitted machine code of the check.",
 		Assumptions: []string{"the list of cycle-forming opcodes is complete for the validator's accepted control instructions (kept honest by C01 R01.1 when built)", "call-stack depth is bounded in both engines (C06 R06.5)"},
 		Rules: []core.Rule{
+			{ID: "R07.6", Template: "T-MUSTPASS", Text: "entering a function polls the closed flag under the termination flag (interpreter: genuine defect found and fixed; compiler: known finding)", Min: 2},
+			{ID: "R07.7", Template: "T-MUSTPASS", Text: "a call entry polls the closed flag itself, not only ctx.Done (genuine defect found and fixed)", Min: 2},
 			{ID: "R07.0", Template: "anchor", Text: "flag fields = struct fields the ensureTermination parameter of Engine.CompileModule flows into; check marker = the operation kind / trampoline slot whose Go side calls FailIfClosed", Min: 4},
 			{ID: "R07.1", Template: "T-MUSTPASS", Text: "each cycle-forming opcode's lowering emits the termination check under exactly the flag, inside the cycle", Min: 6},
 			{ID: "R07.2", Template: "T-MUSTPASS", Text: "the Go side of the check calls FailIfClosed and panics with its error; FailIfClosed returns an exit error carrying the high half of the closed word", Min: 3},
@@ -35,6 +37,8 @@ func init() {
 		},
 		Run: runC07,
 		Controls: []core.Control{
+			{Name: "interpreter-function-entry-not-polled", File: "internal/engine/interpreter/interpreter.go", Old: "\tif f.parent.ensureTermination {\n\t\t// The lowering only puts the check of the exit code at loop headers and tail calls, but a recursion which never\n\t\t// gets deep (f(n){f(n-1); f(n-1)}), or a cycle through a host function calling back, consists of plain calls\n\t\t// only: every cycle in the call graph enters a function.\n\t\t// This is the same check as operationKindBuiltinFunctionCheckExitCode below.\n\t\tif err := m.FailIfClosed(); err != nil {\n\t\t\tpanic(err)\n\t\t}\n\t\tif root := ce.f.moduleInstance; root != m {\n\t\t\tif err := root.FailIfClosed(); err != nil {\n\t\t\t\tpanic(err)\n\t\t\t}\n\t\t}\n\t}\n", New: "", Rule: "R07.6", Substr: "interpreter"},
+			{Name: "call-entry-ignores-closed-flag", File: "internal/engine/wazevo/call_engine.go", Old: "\t\t\tif err := m.FailIfClosed(); err != nil {\n\t\t\t\treturn err\n\t\t\t}\n\t\t}\n\t}\n\n\tvar paramResultPtr", New: "\t\t}\n\t}\n\n\tvar paramResultPtr", Rule: "R07.7", Substr: "compiler"},
 			{Name: "interp-loop-check-removed", File: "internal/engine/interpreter/compiler.go", Old: "\t\tif c.ensureTermination {\n\t\t\tc.emit(newOperationBuiltinFunctionCheckExitCode())\n\t\t}\n\tcase wasm.OpcodeIf:", New: "\tcase wasm.OpcodeIf:", Rule: "R07.1", Substr: "interpreter loop"},
 			{Name: "wazevo-loop-check-removed", File: "internal/engine/wazevo/frontend/lower.go", Old: "\t\tif c.ensureTermination {\n\t\t\tc.insertModuleExitCodeCheck()\n\t\t}\n\tcase wasm.OpcodeIf:", New: "\tcase wasm.OpcodeIf:", Rule: "R07.1", Substr: "wazevo loop"},
 			{Name: "interp-tailcall-check-removed", File: "internal/engine/interpreter/compiler.go", Old: "\t\t\tif c.ensureTermination {\n\t\t\t\tc.emit(newOperationBuiltinFunctionCheckExitCode())\n\t\t\t}\n\t\t\tc.emit(newOperationTailCallReturnCall(index))", New: "\t\t\tc.emit(newOperationTailCallReturnCall(index))", Rule: "R07.1", Substr: "interpreter return_call"},
@@ -100,6 +104,7 @@ func mainClause(refs []core.ClauseRef) *core.ClauseRef {
 }
 
 func runC07(c *core.Ctx) {
+	checkEveryCyclePolls(c)
 	checkWatcherModule(c)
 	checkFlagBeforeLock(c)
 	wasmP := c.Pkg("internal/wasm")
